@@ -1,3 +1,5 @@
 import ModVerif.AuditCmd
 import ModVerif.Props.C13
+import ModVerif.Tie.FnClientMerge
 #audit_module ModVerif.Props.C13
+#audit_module ModVerif.Tie.FnClientMerge
